@@ -74,6 +74,23 @@ fn assignments(n: usize, support: u32, rng: &mut Rng) -> Vec<u64> {
 }
 
 /// Returns the printed text (for the distinctness monitor of the caller).
+/// The text of a value (plain `to_string()`), and what the other routes to its `Display` give: format-spec flags
+/// must leave the text recognisable, and a writer that fails midway must get a prefix of the text, an `Err`, and
+/// leave the next print of the value untouched (fmtprobe.rs).
+fn show<D: std::fmt::Display>(d: &D, salt: u64) -> (String, Result<usize, (&'static str, String)>) {
+    use std::fmt::Write as _;
+    use vmon::fmtprobe as fp;
+    let text = d.to_string();
+    let routes = (|| {
+        let mut checks = fp::judge_specs(&fp::display_specs(d), &text, None)
+            .map_err(|(s, o)| ("format-flags", format!("{} gives {:?}, which does not carry the text {:?}", s, o, text)))?;
+        checks += fp::judge_failing(&text, &fp::caps_for(text.len(), salt), &|w| write!(w, "{}", d), &|| d.to_string())
+            .map_err(|m| ("failing-writer", m))?;
+        Ok(checks)
+    })();
+    (text, routes)
+}
+
 fn exec(ctx: &mut Ctx, ev: &Ev, rng: &mut Rng) -> Option<String> {
     let n = ev.n;
     let kind = Kind::of(&ev.ty);
@@ -83,35 +100,40 @@ fn exec(ctx: &mut Ctx, ev: &Ev, rng: &mut Rng) -> Option<String> {
     let cell = format!("{}|terms={}|{}", kind.name(), std::cmp::min(terms.len(), 4), if n > 12 { "wide" } else if support >> 10 != 0 { "two-digit" } else { "small" });
     ctx.event(&cell, ev, nontrivial);
     let asg = assignments(n, support, rng);
+    let salt = ev.digest();
     let r = guard(|| match kind {
         Kind::Cube => {
             let c = CubeM::new(terms[0].0, terms[0].1).real();
-            (c.to_string(), asg.iter().map(|m| c.value(*m as usize)).collect::<Vec<bool>>())
+            (show(&c, salt), asg.iter().map(|m| c.value(*m as usize)).collect::<Vec<bool>>())
         }
         Kind::Ecube => {
             let c = EcubeM { vars: terms[0].0, xnor: terms[0].1 == 1 }.real();
-            (c.to_string(), asg.iter().map(|m| c.value(*m as usize)).collect())
+            (show(&c, salt), asg.iter().map(|m| c.value(*m as usize)).collect())
         }
         Kind::Sop => {
             let s = Sop::from_cubes(n, terms.iter().map(|t| CubeM::new(t.0, t.1).real()).collect());
-            (s.to_string(), asg.iter().map(|m| s.value(*m as usize)).collect())
+            (show(&s, salt), asg.iter().map(|m| s.value(*m as usize)).collect())
         }
         Kind::Esop => {
             let s = Esop::from_cubes(n, terms.iter().map(|t| CubeM::new(t.0, t.1).real()).collect());
-            (s.to_string(), asg.iter().map(|m| s.value(*m as usize)).collect())
+            (show(&s, salt), asg.iter().map(|m| s.value(*m as usize)).collect())
         }
         Kind::Soes => {
             let s = Soes::from_cubes(n, terms.iter().map(|t| EcubeM { vars: t.0, xnor: t.1 == 1 }.real()).collect());
-            (s.to_string(), asg.iter().map(|m| s.value(*m as usize)).collect())
+            (show(&s, salt), asg.iter().map(|m| s.value(*m as usize)).collect())
         }
     });
-    let (text, vals) = match r {
+    let ((text, routes), vals) = match r {
         Outcome::Returned(x) => x,
         Outcome::Panicked(msg) => {
             ctx.violate("no-panic", ev, kind.name(), format!("printing panicked: {}", msg));
             return None;
         }
     };
+    match routes {
+        Ok(k) => ctx.checked("same-text-by-any-route", k as u64),
+        Err((key, msg)) => ctx.violate("same-text-by-any-route", ev, &format!("{}:{}", kind.name(), key), msg),
+    }
     let f = match Formula::parse(&text) {
         Ok(f) => f,
         Err(e) => {
